@@ -17,6 +17,9 @@ type Event struct {
 	Parents []int // indices of parents; the self-parent comes first when Seq > 1
 	Lamport int
 	Frame   int // claimed frame
+	// Salt distinguishes events that agree in creator, seq and parents (a fork made of two events with
+	// identical structure, different payload); 0 for ordinary events
+	Salt int
 }
 
 // DAG: events are topologically ordered (parents have smaller indices). At most 64 events.
@@ -471,6 +474,9 @@ func (d *DAG) ContentHashes() []string {
 			sort.Strings(rest)
 		}
 		hs[i] = fmt.Sprintf("(%d.%d.%d%v)", e.Creator, e.Seq, e.Frame, ps)
+		if e.Salt != 0 {
+			hs[i] += fmt.Sprintf("#%d", e.Salt)
+		}
 	}
 	return hs
 }
@@ -478,7 +484,11 @@ func (d *DAG) ContentHashes() []string {
 func (d *DAG) String() string {
 	s := fmt.Sprintf("weights=%v ids=%v:", d.Weights, d.IDs)
 	for i, e := range d.Events {
-		s += fmt.Sprintf(" e%d{v%d seq%d f%d p%v}", i, e.Creator, e.Seq, e.Frame, e.Parents)
+		salt := ""
+		if e.Salt != 0 {
+			salt = fmt.Sprintf(" salt%d", e.Salt)
+		}
+		s += fmt.Sprintf(" e%d{v%d seq%d f%d p%v%s}", i, e.Creator, e.Seq, e.Frame, e.Parents, salt)
 	}
 	return s
 }
